@@ -101,6 +101,7 @@ def gen(t, tier):
         else:
             sc['ops'].append(['seed', {'offset': t.pick([-3600, -5, -1, 0, 1, 5])}])
     sc['tz'] = t.pick(C.TIMEZONES)
+    sc['src_age'] = t.pick([None, None, 5, 3600, 3 * 86400])
     return sc
 
 
@@ -175,8 +176,7 @@ def _run(sc, tape):
     w.extra_patches.append((times, 'datetime', shim))
     w.extra_patches.append((seeder, 'queue_class', SimQueue))
     w.extra_patches.append((seeder, 'Queue', SimQueueModule))
-
-    shared = {'log': [], 'gen': 0, 'ocean': sc.get('ocean', False)}
+    shared = {'log': [], 'gen': 0, 'ocean': sc.get('ocean', False), 'src_age': sc.get('src_age')}
     ocean = sc.get('ocean', False)
     upfail = [False]
     faults = {}
@@ -319,6 +319,7 @@ def _run(sc, tape):
 
     def _request(tm, coords, what, pool):
         thr = threshold_now()
+        t_begin = clock.now
         before = _snapshot(tm, pool)
         n0 = len(shared['log'])
         exc = None
@@ -375,6 +376,11 @@ def _run(sc, tape):
             if not any((a[0] is None or e['gen'] & 255 == a[0]) and U.covers(e['bbox'], c) for e in ok_calls):
                 raise Bad('unattributable-rewrite', '%s: tile %s changed from %r to %r without a successful fetch covering it' % (
                     what, c, b, a))
+            if a[0] is not None and (b is None or a[0] != b[0]) and not (int(t_begin) <= a[1] <= clock.now + 1e-6):
+                # "last written at": what the backend records for a tile written during this request is the time of that
+                # write (whole seconds for the sqlite backends), whatever the source says about the age of its data
+                raise Bad('write-time-not-recorded', '%s: tile %s was written during this request (%s .. %s) but the cache '
+                          'records %s as its time' % (what, c, _fmt(t_begin), _fmt(clock.now), _fmt(a[1])))
         if exc is not None:
             if not any(e['ok'] is False for e in calls):
                 raise Bad('spurious-error', '%s raised %r although no upstream call failed' % (what, exc))
